@@ -201,6 +201,8 @@ func c14(c *Ctx) (*report.Result, error) {
 	}
 	res.RuleDoc["O14.13"] = "every mapped key is found, whatever its spelling: the string matcher behind the search-attribute (and namespace) translators is one exact comma-ok map lookup of the unmodified input (same analysis as O13.2) - a pre-filter on length, case or prefix in front of the lookup rejects some configured keys in one direction only"
 	checkExactMatch(c, res, "O14.13")
+	res.RuleDoc["O14.14"] = "search-attribute keys inside a history blob are reached whatever the batch consists of: translateOneDataBlob hands every decoded blob to the visitor before any successful return (same analysis as O13.14) - the namespace skip list includes the upsert-search-attributes event"
+	checkDecodedBlobAlwaysWalked(c, res, "O14.14")
 	res.RuleDoc["O14.12"] = "every message is handed, whole, to the search-attribute visitor: saTranslator.TranslateRequest / TranslateResponse reach visitSearchAttributes with their own parameter on every path - a fast path that walks only the task kinds thought to carry search attributes misses the containers everywhere else (a mutable-state snapshot in a SyncWorkflowState task, say)"
 	checkTranslatorAlwaysVisits(c, res, "O14.12", []string{"saTranslator"})
 	res.RuleDoc["O14.11"] = "a translated blob comes back whole: translateOneDataBlob returns its input untouched or the serializer's own new blob, and never stores into a field of the blob it was given (the serializer writes proto3 and labels it so)"
